@@ -70,7 +70,15 @@ def run(ctx):
     one_way = [(lambda u: 10 * u, lambda u: u // 10), (lambda u: u // 10, lambda u: 10 * u), (lambda u: 3 * u, lambda u: np.round(u / 3)),
                (lambda u: np.round(u / 3), lambda u: 3 * u), (lambda u: u + 0.5, lambda u: np.floor(u)), (lambda u: np.floor(u / 2), lambda u: 2 * u),
                (lambda u: 2 * u, lambda u: np.floor(u / 2) + (u % 2))]       # inverse in one direction only
-    for f, finv in [(lambda u: u + 1, lambda u: u + 1), (lambda u: 2 * u, lambda u: u - 2), (lambda u: u * u, lambda u: u)] + one_way:
+    def _q(fn_):       # NumPy warnings off: these functions are not defined at the probe points
+        def g_(u):
+            with np.errstate(all="ignore"):
+                return fn_(np.asarray(u, dtype=float))
+        return g_
+    off_domain = [(_q(lambda u: np.sqrt(u - 100)), _q(lambda v: v ** 2 - 100)), (_q(lambda u: np.log(u - 1000)), _q(lambda v: np.exp(v) - 1000)),
+                  (_q(lambda u: np.log(u - 1000)), _q(lambda v: np.exp(v))), (_q(lambda u: np.sqrt(u - 50)), _q(lambda v: v ** 2)),
+                  (_q(lambda u: np.log10(u - 2e5)), _q(lambda v: 10 ** v - 2e5))]      # not inverse, and NaN on the whole probe range: a check must not pass vacuously
+    for f, finv in [(lambda u: u + 1, lambda u: u + 1), (lambda u: 2 * u, lambda u: u - 2), (lambda u: u * u, lambda u: u)] + one_way + off_domain:
         r = guarded(utils.potential_outcomes, np.array([1.0, 2.0]), np.array([3.0]), f, finv)
         ctx.case(("po-reject", id(f)), True); ctx.count("non-inverse-pairs")
         if r[0] != "exc":
